@@ -1,7 +1,7 @@
 (* Props/C04.v — the property theorems for C04 (unmodified records and fields are written back byte-for-byte).
    Only statements, `exact <lemma>` and Print Assumptions live here. *)
 From Coq Require Import ZArith List Bool String Lia.
-From BNP Require Import Base.Prims Model.C04 Proofs.C04 Proofs.C04_raw Proofs.C04_bam.
+From BNP Require Import Base.Prims Model.C04 Proofs.C04 Proofs.C04_raw Proofs.C04_bam Gen.C04 Bridge.C04.
 Import ListNotations.
 Open Scope Z_scope.
 
@@ -119,6 +119,57 @@ Theorem C04_bam_end_to_end :
     spec_out_ok FBam recs p (Some out) = true.
 Proof. exact bam_selection_end_to_end. Qed.
 Print Assumptions C04_bam_end_to_end.
+
+(* SOURCE TIE — the formulas regenerated from /repo on this run (Gen/C04.v, written by translate/run.py +
+   translate/gen_c04.py from io/file_buffers.py, io/bam.py, io/delimited_buffers.py, io/buffers/sam.py) are the ones the
+   theorems above are about: (1) selection, compaction, concatenation and rest-of-line RE-ASSEMBLED from the generated
+   formulas are the model's getitem / make_contiguous / concatenate / rest_of_line; (2) BAM uses the same arithmetic;
+   (3) the table arithmetic of _get_buffer_extractor, including WHICH `ends` the entry ends are taken from (the repair of
+   the CRLF defect = the model variant in force); (4) the index arithmetic of SAMBuffer.join_fields. *)
+Theorem C04_source_tie :
+  (forall sel x,
+     gen_tte_getitem (fun m => takeA [] m sel) (fun l => takeA 0 l sel) (x_data x) (x_fs x) (x_fl x) (x_es x) (x_ee x)
+     = ext_tuple (getitem sel x))
+  /\ (forall x, gen_make_contiguous x = make_contiguous x)
+  /\ (forall xs, gen_concatenate xs = concatenate xs)
+  /\ (forall j x, gen_rest_of_line j x = rest_of_line j x)
+  /\ (forall s e ns o fs v, gen_mc_len s e = m_rec_len s e /\ gen_mc_new_starts ns = m_new_starts ns
+        /\ gen_mc_offset s e = m_offset s e /\ gen_mc_offset_operand ns = removelast ns
+        /\ gen_mc_entry_starts ns = removelast ns /\ gen_mc_entry_ends ns = tl ns
+        /\ gen_mc_field_start fs o = m_rebase fs o /\ gen_mc_ravel_view ns ns = (ns, ns)
+        /\ gen_cat_offsets ns = 0 :: cumsum ns /\ gen_cat_field_start v o = m_shift v o
+        /\ gen_cat_entry_start v o = m_shift v o /\ gen_cat_entry_end v o = m_shift v o
+        /\ gen_range_len e s false = m_range_len e s /\ gen_range_len e s true = e - s)
+  /\ (forall xs, gen_cat_contiguous (map x_contig xs) = forallb x_contig xs)
+  /\ (forall sel x,
+        gen_bam_getitem (fun m => takeA [] m sel) (fun l => takeA 0 l sel) (x_data x) (x_es x) (x_ee x)
+        = (x_data (getitem sel x), x_es (getitem sel x), x_ee (getitem sel x), x_contig (getitem sel x)))
+  /\ (forall s e ns, gen_bam_mc_len s e = m_rec_len s e /\ gen_bam_mc_new_starts ns = m_new_starts ns
+        /\ gen_bam_mc_entry_starts ns = removelast ns /\ gen_bam_mc_entry_ends ns = tl ns)
+  /\ (forall x, Forall (fun r => r = []) (x_fs x) -> List.length (x_fs x) = List.length (x_es x) ->
+        List.length (x_ee x) = List.length (x_es x) -> gen_bam_make_contiguous x = make_contiguous x)
+  /\ (forall d, gen_delim_field_start d = m_delim_start d /\ gen_delim_entry_end d = m_delim_entry_end d)
+  /\ gen_delim_entry_ends_before_cr = v_crlf current
+  /\ (forall l r n, gen_sam_cell_ends l = m_sam_cell_ends l /\ gen_sam_drop_cell r n = m_sam_drop_cell r n
+        /\ gen_sam_tag_first n = m_sam_tag_first n /\ gen_sam_tag_step n = n /\ gen_sam_tag_empty n = m_sam_tag_empty n).
+Proof.
+  Ltac tie := first [apply b_mc_len|apply b_mc_new_starts|apply b_mc_offset|apply b_mc_offset_operand|apply b_mc_entry_starts
+    |apply b_mc_entry_ends|apply b_mc_field_start|apply b_mc_ravel_view|apply b_cat_offsets|apply b_cat_field_start
+    |apply b_cat_entry_start|apply b_cat_entry_end|apply b_range_len|apply b_range_len_sep
+    |apply b_bam_mc_len|apply b_bam_mc_new_starts|apply b_bam_mc_entry_starts|apply b_bam_mc_entry_ends
+    |apply b_delim_field_start|apply b_delim_entry_end
+    |apply b_sam_cell_ends|apply b_sam_drop_cell|apply b_sam_tag_first|apply b_sam_tag_step|apply b_sam_tag_empty].
+  split; [exact b_tte_getitem|]. split; [exact b_make_contiguous|]. split; [exact b_concatenate|].
+  split; [exact b_rest_of_line|].
+  split; [intros s e ns o fs v; repeat (split; [tie|]); tie|].
+  split; [exact b_cat_contiguous|]. split; [exact b_bam_getitem|].
+  split; [intros s e ns; repeat (split; [tie|]); tie|].
+  split; [exact b_bam_make_contiguous|].
+  split; [intros d; split; tie|].
+  split; [exact b_delim_entry_ends_before_cr|].
+  intros l r n; repeat (split; [tie|]); tie.
+Qed.
+Print Assumptions C04_source_tie.
 
 (* ---- the full statement "model output satisfies the Spec for every file and program" is FALSE for the code at HEAD:
    witnesses (each is the replay of a finding) ---- *)
